@@ -852,6 +852,49 @@ def run(ctx):
     for src in EXPR_SHAPES:
         if src.startswith("a0(") and src.endswith(")"):
             compare_shape(ctx, program, cpol, "R03.18", src, "eval")
+    ctx.rule("R03.19", "declarations at module level: `global x` outside a function is legal (a no-op), `nonlocal x` is a SyntaxError - what the host's compiler says (asked with "
+             "compile(), nothing is run) is what the interpreter's handlers do", floor=2)
+    from ..flow import FlowPolicy, exits, run_flow
+    for kw in ("global", "nonlocal"):
+        try:
+            compile(f"{kw} x\nx = 1\n", "<module>", "exec")
+            host = "accepted"
+        except SyntaxError:
+            host = "SyntaxError"
+        uid = f"eval.py::AstEval.ast_{kw}"
+        polg = FlowPolicy(program, may_raise_all=False, cancel=False)
+        exg = exits(run_flow(program, uid, polg, args={"self": ObjV("self", "AstEval"), "arg": to_nodev(ast.parse(f"def f():\n    {kw} x\n").body[0].body[0])}, heap={"self.curr_func": Const(None)}))
+        got = sorted({"accepted" if k == "return" else getattr(c.env.get("$exc"), "cls", "?") for k, c, d in exg})
+        ctx.check(got == [host], "R03.19", uid, f"`{kw} x` at module level: {host}", msg=f"`{kw} x` at module level: the interpreter gives {got}, Python {host}", key=f"module level {kw}",
+                  node=program.func(uid), rel="eval.py")
+    ctx.rule("R03.20", "defaults of natively compiled functions (lambda, @pyscript_compile): the local names their default expressions read are the variables' values - the "
+             "interpreter's closure cells never reach exec() (`lambda i=i: i` in a function with nested definitions stored the cell object as default)", floor=2)
+    from ..absint import ClassV
+    for scope in ("function scope with cells", "module scope"):
+        seen = []
+
+        def exec_(i, n, a, k, c, o, seen=seen):
+            seen.append(a[2] if len(a) > 2 else (a[1] if len(a) > 1 else None))
+            return [(c, Const(None))]
+
+        cell = ObjV("cell_i", "EvalLocalVar")
+        poln = FlowPolicy(program, may_raise_all=False, cancel=False, summaries={"compile": lambda i, n, a, k, c, o: [(c, Sym(("code",)))], "exec": exec_},
+                          inline={"EvalLocalVar.get", "EvalLocalVar.is_defined", "value.get", "value.is_defined"},
+                          globals_={"COMP_DECORATORS": ListV((Const("pyscript_compile"), Const("pyscript_executor")), "set"), "EvalLocalVar": ClassV("EvalLocalVar")})
+        poln.distinct_slots = True   # the function's table and the module's table are two dictionaries
+        poln.loop_unroll = 4
+        gt = DictV([(Const("i"), Const(3))], "self.global_sym_table")
+        heapn = {"self.global_sym_table": gt, "cell_i.defined": Const(True), "cell_i.value": Const(3), "cell_i.name": Const("i"), "self.filename": Const("f.py"),
+                 "self.sym_table": DictV([(Const("i"), cell), (Const("j"), Const(4))], "self.sym_table") if scope.startswith("function") else gt}
+        outn = run_flow(program, "eval.py::AstEval.ast_functiondef", poln, args={"self": ObjV("self", "AstEval"), "arg": to_nodev(ast.parse("@pyscript_compile\ndef f(i=i):\n    return i").body[0]),
+                                                                                 "async_func": Const(False)}, heap=heapn)
+        exn = exits(outn)
+        cells = [v for loc in seen if isinstance(loc, DictV) for _, v in loc.items if isinstance(v, ObjV) and v.cls == "EvalLocalVar"]
+        vals = [dict(loc.items).get(Const("i")) for loc in seen if isinstance(loc, DictV)]
+        ok = bool(exn) and all(k == "return" for k, c, d in exn) and seen and not cells and all(v == Const(3) for v in vals)
+        ctx.check(ok, "R03.20", "eval.py::AstEval.ast_functiondef", f"native definition in {scope}",
+                  msg=f"@pyscript_compile / lambda definition in {scope}: exec() is given locals in which `i` is {[repr(v) for v in vals]} (exits {[d for k, c, d in exn]}); specified the value 3: "
+                  "the default expression `i=i` binds the interpreter's cell object", key=f"native locals {scope}", node=program.func("eval.py::AstEval.ast_functiondef"), rel="eval.py")
     _init_wrap_rule(ctx, program)
     _class_namespace_rule(ctx, program)
     _captured_cell_rule(ctx, program)
